@@ -95,6 +95,16 @@ type Writers struct {
 	Funcs []string // contract keys
 }
 
+// SiteDecl: a structural (syntactic) obligation over the SSA of a package:
+// the set of program sites of some kind must be within the declared set of
+// functions.
+type SiteDecl struct {
+	Kind    string // writers | sends | callsites | invokes | closureuse
+	Subject string
+	Allowed []string
+	Line    int
+}
+
 type GlobalInv struct {
 	Name  string // global var name
 	Label string
@@ -113,13 +123,15 @@ type ContractFile struct {
 	Globals   []GlobalInv
 	Axioms    []Clause
 	Immutable []string // "Tree.separator" fields never written after construction
+	Sites     []SiteDecl
 }
 
 var clauseKw = map[string]bool{"requires": true, "ensures": true, "modifies": true, "assigns": true,
 	"decreases": true, "wrapping": true, "loop": true, "at": true, "pure": true, "opaque": true,
 	"use": true, "by": true}
 var itemKw = map[string]bool{"spec": true, "lemma": true, "func": true, "interface": true, "trusted": true,
-	"guarded_by": true, "ghost": true, "writers": true, "global": true, "axiom": true, "immutable": true, "uninterp": true}
+	"guarded_by": true, "ghost": true, "writers": true, "global": true, "axiom": true, "immutable": true, "uninterp": true,
+	"functype": true, "sends": true, "selectsends": true, "callsites": true, "invokes": true, "closureuse": true}
 
 var labelRe = regexp.MustCompile(`^\[([A-Za-z0-9_\-\.]+)\]\s*`)
 
@@ -406,16 +418,41 @@ func parseContractFile(path, pkgPath string, requirePrefix bool) (*ContractFile,
 				g.Fields = append(g.Fields, strings.TrimSpace(f))
 			}
 			cf.Guarded = append(cf.Guarded, g)
-		case "writers":
-			parts := strings.SplitN(rest, ":", 2)
-			if len(parts) != 2 {
-				return nil, fail("bad writers")
+		case "writers", "sends", "selectsends", "callsites", "invokes", "closureuse":
+			k := strings.LastIndex(rest, ":")
+			if k < 0 {
+				return nil, fail("bad %s declaration", w)
 			}
-			wr := Writers{Field: strings.TrimSpace(parts[0])}
-			for _, f := range splitTop(parts[1], ',') {
-				wr.Funcs = append(wr.Funcs, strings.TrimSpace(f))
+			sd := SiteDecl{Kind: w, Subject: strings.TrimSpace(rest[:k]), Line: ll.line}
+			for _, f := range splitTop(rest[k+1:], ',') {
+				if f = strings.TrimSpace(f); f != "" && f != "nothing" {
+					sd.Allowed = append(sd.Allowed, f)
+				}
 			}
-			cf.WritersOf = append(cf.WritersOf, wr)
+			cf.Sites = append(cf.Sites, sd)
+		case "functype":
+			sig := rest
+			name := ""
+			if strings.HasPrefix(sig, "\"") {
+				k := strings.Index(sig[1:], "\"")
+				name = sig[1 : 1+k]
+				sig = "ft" + strings.TrimSpace(sig[k+2:])
+			} else {
+				k := strings.Index(sig, "(")
+				if k < 0 {
+					return nil, fail("bad functype")
+				}
+				name = "@" + strings.TrimSpace(sig[:k]) // @: package-local named type
+				sig = "ft" + sig[k:]
+			}
+			fc, err := parseSignature("func", sig)
+			if err != nil {
+				return nil, fail("%v", err)
+			}
+			fc.Key = "functype:" + name
+			fc.File, fc.Line = path, ll.line
+			curF = fc
+			cf.Funcs = append(cf.Funcs, fc)
 		case "immutable":
 			for _, f := range strings.Split(rest, ",") {
 				cf.Immutable = append(cf.Immutable, strings.TrimSpace(f))
